@@ -936,17 +936,6 @@ fn addstream_strategy(_t: Tier) -> BoxedStrategy<Scenario> {
     gen::addstream_plan().prop_map(|pl| gen::build_addstream(&pl, &conc_opts())).boxed()
 }
 
-/// the add_stream scenarios without the multi-handle parent (territory of known finding D8, which
-/// is listed for C10 only: excluded by construction where another property borrows the scenarios)
-fn addstream_sole_parent_strategy(_t: Tier) -> BoxedStrategy<Scenario> {
-    gen::addstream_plan()
-        .prop_map(|mut pl| {
-            pl.parent_handles = 1;
-            gen::build_addstream(&pl, &conc_opts())
-        })
-        .boxed()
-}
-
 fn c10_oracle(sc: &Scenario, ex: &Execution, info: &mut CaseInfo) -> Vec<Finding> {
     let (wrap, _overlap) = conc_common(sc, ex, info);
     let h = Hist::build(sc, ex);
@@ -1339,11 +1328,11 @@ pub fn registry() -> Vec<PropDef> {
                 // (concurrently, by several threads) while producers run into the bound
                 Part {
                     name: "while_streams_are_added",
-                    source: Source::Random { strategy: addstream_sole_parent_strategy, cases: cases_fn!(3000, 60000) },
+                    source: Source::Random { strategy: addstream_strategy, cases: cases_fn!(3000, 60000) },
                     oracle: c03_oracle,
                 },
             ],
-            rule: "traffic profile with try_send bursts over requested capacities 0..9, plus the add_stream scenarios of C10 with a sole-handle parent (streams added by several threads while producers run into the bound); oracle = counting bound per (accepted send, stream) plus no-loss; non-trivial = some send was refused and a later one accepted while a receive overlapped (the Full boundary was crossed under concurrency)",
+            rule: "traffic profile with try_send bursts over requested capacities 0..9, plus the add_stream scenarios of C10 (streams added by several threads, from sole-handle and from shared parents, while producers run into the bound); oracle = counting bound per (accepted send, stream) plus no-loss; non-trivial = some send was refused and a later one accepted while a receive overlapped (the Full boundary was crossed under concurrency)",
             assumptions: vec![SC_ASSUME, SAMPLE_ASSUME],
         },
         PropDef {
